@@ -18,14 +18,14 @@ def oracle(case, obs):
         return e
     res = dc.mon(case, obs)
     # gaps / unexpected repeats / wrong counter first, then the statement itself: num_events = events emitted
-    return dc.docs_monitor.first(res, ("number",)) or dc.docs_monitor.first(res, ("count",))
+    return dc.docs_monitor.first(res, ("number", "retake")) or dc.docs_monitor.first(res, ("count",))
 
 
 def finding(case, obs):
     if obs.get("errors"):
         return None
     res = dc.mon(case, obs)
-    if dc.docs_monitor.first(res, ("number",)):
+    if dc.docs_monitor.first(res, ("number", "retake")):
         return None
     if dc.docs_monitor.first(res, ("count",)) and res["behind"]:
         # a run stopped after a rewind point (resume / suspension) and before the replay had re-emitted
